@@ -1,6 +1,52 @@
 """C13 - reduced-ring (modular) arithmetic is the homomorphic image of integer arithmetic."""
+import os
+import sys
 import core
 from core import hx, gen_mag
+
+# Fragments of modular/{pow,add,mul,repr,reducer,convert}.rs (window-length selection, comparison methods, product-length
+# switches, IntoRing impls of the primitive types, the units) are regenerated into coq/gen/ModRingGen.v when this plug-in
+# is imported, i.e. before the proof phase of every run; theorems C13_gen_* are proved over the generated definitions.
+# Unparseable source is not an alarm: the committed copy stays (marked STALE), the status is reported in the evidence.
+sys.path.insert(0, os.path.join(core.ROOT, "tools"))
+try:
+    import translate_c13_r3
+    GEN_STATUS = translate_c13_r3.generate(core.REPO, os.path.join(core.COQ, "gen"))
+    GEN_PRIMS = translate_c13_r3.prim_types(os.path.join(core.COQ, "gen"))
+    GEN_WINDOW_RUNS = translate_c13_r3.window_runs(os.path.join(core.COQ, "gen"))
+except Exception as _ex:  # the generator itself broke: same fallback as an unparseable source
+    GEN_STATUS = "unparsed generator-failed: %s" % str(_ex)[:200]
+    GEN_PRIMS, GEN_WINDOW_RUNS = [], []
+
+# A run against a scratch checkout (VERIF_REPO) with the shared Coq tree must not leave the fragment of that checkout
+# behind for other builds: regenerate from /repo when the process ends.
+if os.path.realpath(core.REPO) != os.path.realpath("/repo") and "VERIF_COQ" not in os.environ:
+    import atexit
+
+    def _restore_gen():
+        try:
+            translate_c13_r3.generate("/repo", os.path.join(core.COQ, "gen"))
+        except Exception:
+            pass
+
+    atexit.register(_restore_gen)
+
+
+def extra_phase(tier, seed, exes, oracle):
+    word = GEN_STATUS.split(" ", 1)[0]
+    prims_match = sorted(t for t, _ in GEN_PRIMS) == sorted(PRIMS) and all((PRIMS[t][0] < 0) == sg for t, sg in GEN_PRIMS)
+    return {
+        "evaluations": 0,
+        "hist": {"translator_c13_r3:ModRingGen:" + word: 1, "into_ring_prims_generated=%d_match_generators=%s" % (len(GEN_PRIMS), prims_match): 1},
+        "nontrivial": [],
+        "samples": [{"fragment": "coq/gen/ModRingGen.v (tools/translate_c13_r3.py from integer/src/modular/{pow,add,mul,repr,reducer,convert}.rs)",
+                     "status": GEN_STATUS,
+                     "tied_by": "C13_gen_window_len, C13_gen_pow_params, C13_gen_window_table, C13_gen_comparisons, C13_gen_units, C13_gen_into_ring_prims"
+                                if word == "ok" else "correspondence run only (source not parsed; committed copy marked STALE)",
+                     "window_runs_64bit_first": [list(r) for r in GEN_WINDOW_RUNS[:12]]}],
+        "failures": [],
+    }
+
 
 ID = "C13"
 READY = True
@@ -9,37 +55,45 @@ HARNESS_BIN = "c13"
 NCASES = {"quick": 12000, "thorough": 200000}
 CASE_TIMEOUT = {"quick": 30, "thorough": 120}
 
-LEVEL_TEXT = ("Machine-checked Coq theorems (56 pinned) at three levels. (1) Value level, every word size >= 2, every modulus >= 1, all "
+LEVEL_TEXT = ("Machine-checked Coq theorems (77 pinned) at three levels. (1) Value level, every word size >= 2, every modulus >= 1, all "
               "integers: construction of the ring, reduce for every size class and sign, + - * neg dbl sqr ==, the two exponentiation "
               "algorithms (binary method word by word; sliding window with a table of odd powers - proved generically for any carrier, "
               "every window length), inverse, division, ring identity and the num_modular::Reducer implementation preserve the "
-              "representation invariant raw = (x mod m) << shift and return the residue the mathematics demands; every call into "
-              "num-modular meets that function's precondition. The calls into num-modular are no longer contracts: div_rem_2by1 / "
-              "div_rem_3by2 are C02's word-by-word transcriptions of the Moller-Granlund reciprocal divisions (proved exact under the "
-              "normalisation precondition) and invm is transcribed here (extended Euclid through subm / mulm / negm) and proved equal to "
-              "the specification's inverse, so reduce, + - * neg dbl sqr ==, pow in every ring and inv in the one- and two-word rings "
-              "hold with NO hypothesis on an external function (C13_nm_*); inv / division in the multi-word ring assume only the contract "
-              "of dashu's gcd_ext. (2) Word level for the multi-word ring (ReducedLarge = word list of the modulus' length): is_valid "
-              "characterises exactly the reduced forms; add_in_place, sub_in_place(_swap), dbl_in_place, negate_in_place, residue, one "
-              "and == on word lists, built from C02's carry / borrow kernels, return for all word lists exactly what the value-level "
-              "model returns (debug assertions included); mul_normalized, sqr_normalized, mul_in_place (with its squaring shortcut) and "
-              "the sliding-window pow on word lists are proved with the REAL kernels plugged in - C01's as-is models of mul::multiply / "
-              "sqr::sqr (thresholds of the source) and C02's as-is model of div::div_rem_in_place with num-modular's div_rem_3by2 as "
-              "transcribed - for every word size >= 8. (3) The extracted 64-bit model the oracle runs is proved equal to the "
-              "specification for all inputs. The model is tied to the code by a correspondence run against the OCaml extraction.")
+              "representation invariant raw = (x mod m) << shift and return the residue the mathematics demands; num-modular's "
+              "div_rem_1by1 / 2by1 / 2by2 / 3by2 / 4by2 and invm are transcriptions proved exact (C13_nm_*: no hypothesis on an external "
+              "function for reduce, + - * neg dbl sqr ==, pow in every ring and inv in the one- and two-word rings); the one- and two-word "
+              "rings reduce a multi-word operand on its WORDS (fast_rem_by_normalized_word / _dword as proved by C02). (2) Word level for the "
+              "multi-word ring (ReducedLarge = word list of the modulus' length), every word size >= 8, NO contract of any kernel left: "
+              "ConstLargeDivisor::new (normalisation shift, no carry lost), rem_large (shift, optional carry word, division only for long "
+              "buffers), rem_repr, from_ubig, IntoRing for UBig / IBig (negative numbers: canonical representative), residue, modulus, "
+              "Reducer::transform, is_valid, add / sub / dbl / neg with their carry and borrow flags and debug assertions, mul_normalized / "
+              "sqr_normalized / mul_in_place / the sliding-window pow - with C01's as-is mul::multiply / sqr::sqr, C02's as-is "
+              "div::div_rem_in_place, num-modular's div_rem_3by2 as transcribed and C01's add_signed_mul as the subtract-multiply kernel "
+              "(C13_words_*_src); inv_large on word lists (unshift, the 0 / 1 / 2 / n word dispatch, the `g_len == 1 && raw[0] == 1` test on "
+              "the words of g, zero fill, shift back, is_valid, negate) returns Some(inverse) exactly when gcd = 1, given only the contract of "
+              "the multi-word extended gcd. (3) Both extracted 64-bit models the oracle runs - the value-level one (C13_run_*) and the one "
+              "on word lists with the real kernels / num-modular transcribed (C13_hrun_*) - are proved equal to the specification for all "
+              "inputs. Regenerated from the Rust sources on every run and proved over the generated definitions (C13_gen_*): the "
+              "window-length selection of large::pow (the model RUNS the regenerated function; its range [1, WORD_BITS) is proved for whatever "
+              "cost function the source has; table of window lengths for bit lengths 2..4096), table size and first bit, the comparison "
+              "methods of add_in_place / dbl_in_place / mul_normalized / sqr_normalized / is_valid / check, the long-product switches, the "
+              "units, and the list of primitive types with an IntoRing impl (each returns the reduced form of every value of its type).")
 LEVEL_NOTE = ("Trusted: Coq kernel, extraction (FastZ.v directives), zarith, harness. Still by contract only: dashu's multi-word extended gcd "
-              "(gcd_ext_word / gcd_ext_dword / gcd_ext_in_place: Lehmer) behind inv / division of the multi-word ring, and - inside "
-              "C02's division theorem used by the word-level mul / pow - add_signed_mul(c, Negative, a, b) on an accumulator longer than "
-              "the product (contract_mul_sub). At value level only (no word lists): the one- and two-word rings (machine integers), "
-              "ConstLargeDivisor::rem_large / rem_repr, inv_large's buffer handling, the Reducer impl. Primitive machine arithmetic "
-              "(u128 widening multiplication, %, shifts) is taken at its mathematical meaning. Compared only (not proved): that the Rust "
-              "code is what the models transcribe - 12000 generated + corpus cases per run against specification and as-is model.")
-TECHNIQUE = "Coq proof of value-level and word-level as-is models (representation invariant, refinement, generic windowed exponentiation, num-modular transcribed) + extracted-spec correspondence run"
-RULE = ("cases = operation (every call form: by value / by reference / assigning, ConstDivisor::new / from_word / from_dword, UBig / IBig / "
-        "every primitive type, Reducer trait) x modulus from {1, 2, 2^k, 2^k+-1 at k = 63, 64, 65, 127, 128, 129, word-aligned and "
-        "unaligned single / double / multi-word (3..33 words), even multi-word, low words zero} x operands of both signs from "
-        "{0, +-1, m-1, m, m+1, multiples of m, a + b = m, a = b, 0..2n+2 words in the usual bit patterns} x exponents "
-        "{0, 1, 2, 3, one word, 2^64-1, 2^64, two words, 3..5 words; all-ones / single bit / sparse / random}; plus (40 % of the cases) "
+              "(gcd_ext_word / gcd_ext_dword / gcd_ext_in_place: Lehmer; C12 has a value-level as-is model but no proof yet) behind inv / "
+              "division of the multi-word ring - the oracle runs an exact instance that meets the contract. At value level only (no word "
+              "lists): the Reducer impl's reduce_once / reduce_negate (sub_large on UBig), clone_from. Primitive machine arithmetic (u128 "
+              "widening multiplication, %, shifts) is taken at its mathematical meaning. Compared only (not proved): that the Rust code is "
+              "what the models transcribe - 12000 generated + corpus cases per run against the specification and against BOTH as-is "
+              "instances (asis=same needs both; path=words / path=nm says which half of the second instance ran); fragments the translator "
+              "cannot parse fall back to this comparison alone.")
+TECHNIQUE = "Coq proof of value-level and word-level as-is models (representation invariant, refinement, generic windowed exponentiation, num-modular / C01 / C02 kernels transcribed, fragments regenerated from the source) + extracted-spec correspondence run against two as-is instances"
+RULE = ("cases = operation (every call form: by value / by reference / assigning, ConstDivisor::new / from_word / from_dword incl. a zero "
+        "modulus, UBig / IBig / every primitive type, Reducer trait) x modulus from {1, 2, 2^k, 2^k+-1 at k = 63, 64, 65, 127, 128, 129, "
+        "word-aligned and unaligned single / double / multi-word (3..33 words), even multi-word, low words zero} x operands of both signs "
+        "from {0, +-1, m-1, m, m+1, multiples of m, a + b = m, a = b, 0..2n+2 words in the usual bit patterns, shifted operands that fill "
+        "n-2 / n-1 / n / n+1 words with and without a carry word (the buffer-length switch of rem_large)} x exponents {0, 1, 2, 3, one "
+        "word, 2^64-1, 2^64, two words, 3..5 words; all-ones / single bit / sparse / random; bit lengths where the regenerated "
+        "window-length function changes its answer, -1/0/+1}; plus (40 % of the cases) "
         "the boundary classes built from the structure of the modulus, for each of the six ring classes (one / two / 3..33 words, with "
         "and without normalisation shift): m = p*q with the lengths of p and q adding up to the length of m (whole-word and arbitrary "
         "splits) and operands p*j, q*k (raw product exactly m, 2m, ...; off by one factor), m = p^2 with operand p (sqr, x*x, pow), "
@@ -48,30 +102,33 @@ RULE = ("cases = operation (every call form: by value / by reference / assigning
         "low words, all ones, low words zero, random multi-word) with the residue 1, 2, 3+ words long (the three extended-gcd branches) - "
         "each through Reduced and through the Reducer trait, each operand also as a negative / larger representative of its residue. "
         "A case is non-trivial when the oracle evaluated the Coq specification on it; distinct = distinct case texts.")
-EXPLANATION = ("Theorems (coq/props/C13.v, 56 pinned): for every word size >= 2 and every modulus m >= 1 the as-is model of "
+EXPLANATION = ("Theorems (coq/props/C13.v, 77 pinned): for every word size >= 2 and every modulus m >= 1 the as-is model of "
                "ConstDivisor::new/reduce/residue, + - * neg dbl sqr ==, pow, inv, div and of the Reducer impl returns the residue the "
                "mathematics demands (representation invariant raw = (x mod m) << shift preserved by every operation, residues in [0, m), "
-               "inverse exactly for units, division = div_spec, different rings panic, no debug assertion of dashu or num-modular "
-               "precondition can fire) - stated once over abstract external functions with their contracts (externals_ok) and once with "
-               "num-modular's div_rem_2by1 / div_rem_3by2 / invm transcribed and proved (C13_nm_*: no hypothesis except, for the "
-               "multi-word inverse, the contract of gcd_ext); the word-level layer (C13_words_*) proves ReducedLarge::is_valid, the "
-               "carry / borrow kernels, mul_normalized / sqr_normalized and the sliding-window pow on word lists against the value-level "
-               "model with C01's multiplication and C02's division models plugged in; binary and sliding-window exponentiation are "
-               "proved for any carrier closed under a power relation; the extracted 64-bit model the oracle runs is proved equal to the "
-               "specification for all inputs (C13_run_*); the pre-repair models of F01-F03 stay refuted (F03 also at word level). "
-               "Tie to the code: every operation of the harness is compared with the extracted specification (verdict) and with "
-               "the extracted as-is model (fidelity statistic) on generated inputs.")
+               "inverse exactly for units, division = div_spec, different rings panic, a zero modulus is the DivideBy0 panic, no debug "
+               "assertion of dashu or num-modular precondition can fire) - stated over abstract external functions with their contracts "
+               "(externals_ok) and with num-modular transcribed and proved (C13_nm_*); the word-level layer (C13_words_*) proves "
+               "ConstLargeDivisor::new, rem_large / rem_repr / from_ubig / IntoRing, is_valid, the carry / borrow kernels, mul_normalized / "
+               "sqr_normalized, the sliding-window pow and inv_large's buffer handling on word lists against the value-level model, with "
+               "C01's multiplication and C02's division models plugged in and no contract left except the multi-word extended gcd; "
+               "binary and sliding-window exponentiation are proved for any carrier closed under a power relation; both extracted 64-bit "
+               "models the oracle runs are proved equal to the specification for all inputs (C13_run_*, C13_hrun_*); fragments of the "
+               "source (window-length selection, comparison methods, product-length switches, units, IntoRing impls) are regenerated on "
+               "every run and the theorems C13_gen_* are proved over the generated definitions; the pre-repair models of F01-F03 stay "
+               "refuted (F03 also at word level). Tie to the code: every operation of the harness is compared with the extracted "
+               "specification (verdict) and with both extracted as-is models (fidelity statistic) on generated inputs.")
 TRUSTED_BASE = [
-    "Coq 8.16.1 kernel (coqc; vm_compute only in closed Examples)",
+    "Coq 8.16.1 kernel (coqc; vm_compute only in closed Examples and in the stated finite domain of C13_gen_window_table: bit lengths 2..4096)",
     "extraction: ExtrOcamlBasic + ExtrOcamlZBigInt + the Extract Constant directives of coq/extract/FastZ.v",
     "OCaml 4.13.1 + zarith 1.12, oracle/common.ml, oracle/driver_c13.ml; Rust harness harness/src/bin/c13.rs",
-    "contract (hypothesis gcd_ext_ok) for dashu's multi-word extended gcd gcd::gcd_ext_word / gcd_ext_dword / gcd_ext_in_place, used by inv / division "
-    "of the multi-word ring only; contract_mul_sub (C02's DivContracts.v: add_signed_mul(c, Negative, a, b) on a longer accumulator) inside the "
-    "division theorem the word-level mul / sqr / pow theorems use",
-    "that the Gallina transcriptions (ModRingModel.v, ModRingWords.v, ModRingNumModular.v; C01's RingMul.v, C02's DivWordModel.v / DivNumModular.v) "
-    "say what the Rust sources say - checked by the correspondence run only; primitive machine arithmetic at its mathematical meaning",
-    "word lists are modelled for the multi-word ring's arithmetic; buffer capacities, the memory allocator, rem_large / inv_large buffers and the "
-    "one- and two-word rings' machine words are at value level",
+    "contract (hypothesis of C13_words_inv / gcd_ext_ok) for dashu's multi-word extended gcd gcd::gcd_ext_word / gcd_ext_dword / gcd_ext_in_place, "
+    "used by inv / division of the multi-word ring only",
+    "that the Gallina transcriptions (ModRingModel.v, ModRingWords.v, ModRingConv.v, ModRingNumModularDefs.v; C01's RingMul.v, C02's DivWordModel.v / "
+    "DivNumModular.v) say what the Rust sources say - checked by the correspondence run, and for the regenerated fragments by "
+    "tools/translate_c13_r3.py (regex / tiny expression grammar over modular/{pow,add,mul,repr,reducer,convert}.rs; the reading of `<<` as a "
+    "multiplication by a power of two, of usize arithmetic as exact, of WORD_BITS.min(usize::BIT_SIZE) as the word size are hand-written semantics); "
+    "primitive machine arithmetic at its mathematical meaning",
+    "buffer capacities and the memory allocator are not modelled; a UBig operand is its value with the canonical word list (C17's invariant)",
 ]
 ASSUMPTIONS = [
     "UBig::from_words / as_words / IBig::from_parts transport values faithfully (used by the harness instead of any parser)",
@@ -148,6 +205,20 @@ def gen_operand(rng, m, tier, other=None):
         v = (rng.choice([(1 << 64) - 1, 1 << 63, m & ((1 << 64) - 1), (m + 1) & ((1 << 64) - 1), rng.bits(64)]) << 64) | rng.bits(64)
     elif k == 8:
         v = rng.bits(rng.choice([8, 32, 63, 64, 65, 127, 128, 129, 192]))
+    elif k == 10 and nw >= 3:
+        # ConstLargeDivisor::rem_large: the shifted operand fills nw-2 / nw-1 / nw words, with and without a carry word
+        sh = shift_of(m)
+        words = rng.choice([nw - 2, nw - 1, nw - 1, nw - 1, nw, nw + 1])
+        t = rng.below(4)
+        if t == 0:
+            v = rng.bits(max(1, words * W - sh)) | (1 << max(0, words * W - sh - 1))      # shifted top bit lands exactly in the top word
+        elif t == 1:
+            v = rng.bits(words * W) | (1 << (words * W - 1))                               # carry word (when shift > 0)
+        elif t == 2:
+            v = (1 << max(0, words * W - sh)) + rng.choice([-1, 0, 1])                      # around the carry boundary
+        else:
+            v = ((m << sh) >> (W * rng.range(0, 1))) + rng.choice([-1, 0, 1])              # around the normalised divisor
+        v = max(v, 0)
     elif k == 9:
         # a multiple of a factor of an even / power-of-two modulus: non-invertible elements
         tz = (m & -m).bit_length() - 1
@@ -187,6 +258,16 @@ def gen_exp(rng, tier):
         while v.bit_length() < rng.choice([130, 200, 260]):
             run = rng.choice([1, 2, 3, 5, 8, 13, 63, 64, 65])
             v = (v << run) | (((1 << run) - 1) if rng.chance(1, 2) else 0)
+        return v
+    if k == 11 and GEN_WINDOW_RUNS:
+        # bit lengths where the regenerated window-length function changes its answer (+-0/1)
+        lim = 1400 if tier == "thorough" else 420
+        runs = [r for r in GEN_WINDOW_RUNS if r[0] <= lim]
+        lo, hi, _ = rng.choice(runs)
+        bits = max(2, rng.choice([lo - 1, lo, hi, hi + 1]))
+        v = rng.bits(bits) | (1 << (bits - 1))
+        if rng.chance(1, 3):
+            v = (1 << bits) - 1
         return v
     bits = rng.choice([129, 160, 192, 193, 256, 320] + ([640, 1300] if tier == "thorough" else []))
     return rng.bits(bits) | (1 << (bits - 1))
@@ -521,6 +602,9 @@ def gen_cases(rng, tier, n):
         c = ctor_for(rng, m)
         a = gen_operand(rng, m, tier)
         b = gen_operand(rng, m, tier, other=a)
+        if rng.chance(1, 400):
+            out.append("new0 %s" % rng.choice(["n", "w", "d", "r"]))
+            continue
         if k < 10:
             if rng.chance(1, 3):
                 ty = rng.choice(sorted(PRIMS))
